@@ -1,61 +1,273 @@
 package main
 
 // C05‑S1/S2: who may touch Cron.entries, who may start the scheduler, and
-// how requests are routed to it.
+// how requests are routed to it. All decisions are made on an interprocedural
+// path-sensitive flow (c05Flow) whose global state is
+//
+//	rv      what this goroutine knows about Cron.running while it has held the
+//	        lock continuously since it read the flag (unknown / true / false)
+//	claimed this goroutine has set running=true after seeing it false under the
+//	        lock, i.e. it is (about to become) the scheduler
+//
+// so helper extraction, inlining, temporaries (`was := c.running`), early
+// returns, defer vs explicit Unlock and bool helpers (`c.isRunning()`) do not
+// matter.
 
 import (
 	"fmt"
+	"go/token"
 	"go/types"
 	"sort"
-	"strings"
 
 	"golang.org/x/tools/go/ssa"
 )
 
-// allowedSite: instruction in (an access or a call to a helper that touches
-// entries) is executed by the scheduler goroutine, or by an API method that
-// holds runningMu and has seen running==false.
-func (a *c05) allowedSite(in ssa.Instruction, seen map[*ssa.Function]bool) (bool, string) {
-	fn := in.Parent()
-	if a.schedOnly[fn] {
-		return true, ""
+const (
+	c05rvUnk = 0
+	c05rvT   = 1
+	c05rvF   = 2
+)
+
+func c05Rv(g int) int       { return g % 3 }
+func c05Claimed(g int) bool { return g/3 == 1 }
+func c05MkRun(rv int, claimed bool) int {
+	if claimed {
+		return rv + 3
 	}
-	if ok, _ := a.underLockWithRunning(in, -1); ok {
-		return true, ""
+	return rv
+}
+
+// isRunningLoad: v is a load of Cron.running.
+func (a *c05) isRunningLoad(v ssa.Value) bool {
+	u, ok := v.(*ssa.UnOp)
+	if !ok || u.Op != token.MUL {
+		return false
 	}
-	// a helper "called with the lock held on the stopped branch": every call site must qualify
-	if !isExportedFunc(fn) && fn.Parent() == nil && !a.addrTaken[fn] && len(a.sites[fn]) > 0 && !seen[fn] {
-		seen[fn] = true
-		for _, s := range a.sites[fn] {
-			if _, isGo := s.(*ssa.Go); isGo {
-				return false, "reached through a go statement at " + a.pos(s) + " (a goroutine that is neither the scheduler nor a lock holder)"
-			}
-			if ok, why := a.allowedSite(s, seen); !ok {
-				return false, "reached from " + a.name(s.Parent()) + " at " + a.pos(s) + ", where " + why
+	_, ok = c05FieldAddr(u.X, a.fRunning)
+	return ok
+}
+
+func c05IsBool(t types.Type) bool {
+	b, ok := t.Underlying().(*types.Basic)
+	return ok && b.Kind() == types.Bool
+}
+
+// lockOpOnMu: in acquires/releases Cron.runningMu.
+func (a *c05) lockOpOnMu(in ssa.Instruction) bool {
+	ci, ok := in.(ssa.CallInstruction)
+	if !ok {
+		return false
+	}
+	id, _, ok := a.e.lockOp(ci)
+	return ok && id == a.lockID
+}
+
+// runFlow builds the running/claimed flow. onlyRoot != nil: only that function is a root.
+func (a *c05) runFlow() *c05Flow {
+	f := &c05Flow{a: a, G: 6, Fresh: 0}
+	f.Tracked = func(v ssa.Value) bool {
+		if a.isRunningLoad(v) {
+			return true
+		}
+		if call, ok := v.(*ssa.Call); ok {
+			h := staticCallee(call)
+			return h != nil && a.p.funcSet[h] && h.Pkg != nil && h.Pkg.Pkg.Path() == a.pkg &&
+				h.Signature.Results().Len() == 1 && c05IsBool(h.Signature.Results().At(0).Type())
+		}
+		return false
+	}
+	f.Step = func(in ssa.Instruction, g int) (int, bool) {
+		if a.lockOpOnMu(in) {
+			return c05MkRun(c05rvUnk, c05Claimed(g)), true
+		}
+		if st, ok := in.(*ssa.Store); ok {
+			if _, isR := c05FieldAddr(st.Addr, a.fRunning); isR {
+				k, isK := st.Val.(*ssa.Const)
+				held := a.e.At(in)[a.lockID] == ModeW
+				switch {
+				case isK && k.Value != nil && k.Value.String() == "true":
+					// rv != unknown implies the mutex has been held since the flag was read
+					if c05Rv(g) == c05rvF {
+						return c05MkRun(c05rvT, true), false
+					}
+					if !held {
+						return c05MkRun(c05rvUnk, c05Claimed(g)), false
+					}
+					return c05MkRun(c05rvT, c05Claimed(g)), false
+				case isK && k.Value != nil && k.Value.String() == "false":
+					// rv is knowledge about a scheduler being alive, gained by READING the
+					// flag under the mutex; clearing the flag does not make the scheduler
+					// go away (Stop's handshake does), so rv is kept.
+					return c05MkRun(c05Rv(g), false), false
+				default:
+					return c05MkRun(c05rvUnk, false), false
+				}
 			}
 		}
-		return true, ""
+		return g, false
 	}
-	_, why := a.underLockWithRunning(in, -1)
-	return false, why
+	f.Cond = func(at ssa.Instruction, v ssa.Value, tv bool, g int) int {
+		if !a.isRunningLoad(v) {
+			return g
+		}
+		ld := v.(ssa.Instruction)
+		if a.e.At(ld)[a.lockID] != ModeW || a.e.At(at)[a.lockID] != ModeW || ld.Parent() != at.Parent() {
+			return g
+		}
+		sec := a.section(at.Parent())
+		if sec[ld] != sec[at] {
+			return g
+		}
+		if tv {
+			return c05MkRun(c05rvT, c05Claimed(g))
+		}
+		return c05MkRun(c05rvF, c05Claimed(g))
+	}
+	f.Exit = func(fn *ssa.Function, g int) int {
+		if fn == a.sched {
+			return 0 // the scheduler role ends when the loop returns
+		}
+		return g
+	}
+	f.GoEntry = func(goi *ssa.Go, g int) (int, bool) {
+		if h := staticCallee(goi); h != nil && a.reachLoop[h] {
+			return c05MkRun(c05rvUnk, c05Claimed(g)), true // the role is handed to the scheduler goroutine
+		}
+		return 0, false
+	}
+	return f
+}
+
+// runningUndecodable: fn uses a load of Cron.running in a way the flow does not follow.
+func (a *c05) runningUndecodable(fn *ssa.Function) string {
+	why := ""
+	allInstrs(fn, func(in ssa.Instruction) {
+		v, ok := in.(ssa.Value)
+		if !ok || !a.isRunningLoad(v) {
+			return
+		}
+		var chk func(x ssa.Value, depth int)
+		chk = func(x ssa.Value, depth int) {
+			for _, r := range refs(x) {
+				switch y := r.(type) {
+				case *ssa.If, *ssa.Return, *ssa.DebugRef:
+				case *ssa.UnOp:
+					if y.Op == token.NOT && depth < 4 {
+						chk(y, depth+1)
+					} else {
+						why = "Cron.running is used in an expression at " + a.pos(r)
+					}
+				case *ssa.BinOp:
+					_, c1 := y.X.(*ssa.Const)
+					_, c2 := y.Y.(*ssa.Const)
+					if (c1 || c2) && (y.Op == token.EQL || y.Op == token.NEQ) && depth < 4 {
+						chk(y, depth+1)
+					} else {
+						why = "Cron.running is combined with another condition at " + a.pos(r)
+					}
+				default:
+					why = "the value of Cron.running flows into " + r.String() + " at " + a.pos(r)
+				}
+			}
+		}
+		chk(v, 0)
+	})
+	return why
+}
+
+// ctxOK: decide a requirement on all states before in; verdict "" ok,
+// "unreached", or the reason.
+func (a *c05) ctxAll(in ssa.Instruction, pred func(g int) bool, describe func(g int) string) (ok bool, why string, reached bool) {
+	st := a.run.At(in)
+	gs := a.run.Globals(st)
+	if len(gs) == 0 {
+		return true, "", false
+	}
+	for _, g := range gs {
+		if !pred(g) {
+			return false, describe(g), true
+		}
+	}
+	return true, "", true
+}
+
+func (a *c05) describeRun(in ssa.Instruction) func(g int) string {
+	return func(g int) string {
+		s := "on some path it executes "
+		{
+			switch c05Rv(g) {
+			case c05rvUnk:
+				s += "without the mutex, or without having tested the running flag since the mutex was taken"
+			case c05rvT:
+				s += "on the branch where the running flag is true"
+			case c05rvF:
+				s += "on the branch where the running flag is false"
+			}
+		}
+		if c05Claimed(g) {
+			s += " (as the scheduler)"
+		}
+		return s
+	}
+}
+
+// imprecise: a violation found in fn (or a caller chain) cannot be trusted.
+func (a *c05) impreciseAt(in ssa.Instruction) string {
+	seen := map[*ssa.Function]bool{}
+	var walk func(fn *ssa.Function) string
+	walk = func(fn *ssa.Function) string {
+		if seen[fn] {
+			return ""
+		}
+		seen[fn] = true
+		if w := a.runningUndecodable(fn); w != "" {
+			return a.name(fn) + ": " + w
+		}
+		if a.run.Imprecise[fn] {
+			return a.name(fn) + " branches on more than two running-related booleans"
+		}
+		if isExportedFunc(fn) {
+			return ""
+		}
+		for _, s := range a.sites[fn] {
+			if w := walk(s.Parent()); w != "" {
+				return w
+			}
+		}
+		return ""
+	}
+	return walk(in.Parent())
 }
 
 func (a *c05) checkOwnership() {
 	r, p := a.r, a.p
+	a.run = a.runFlow()
+	a.run.Run(nil)
 	type key struct {
 		fn *ssa.Function
 		f  string
 	}
 	bad := map[key][]string{}
+	undec := map[key]string{}
 	cnt := map[key]int{}
 	pos := map[key]string{}
 	note := func(fn *ssa.Function, field string, in ssa.Instruction, what string) {
+		ok, why, reached := a.ctxAll(in, func(g int) bool {
+			// rv is only known while the mutex has been held since the flag was read
+			return c05Claimed(g) || c05Rv(g) == c05rvF
+		}, a.describeRun(in))
+		if !reached {
+			return
+		}
 		k := key{fn, field}
 		cnt[k]++
 		if pos[k] == "" {
 			pos[k] = a.pos(in)
 		}
-		if ok, why := a.allowedSite(in, map[*ssa.Function]bool{}); !ok {
+		if !ok {
+			if imp := a.impreciseAt(in); imp != "" {
+				undec[k] = imp
+			}
 			bad[k] = append(bad[k], fmt.Sprintf("%s at %s: %s", what, a.pos(in), why))
 		}
 	}
@@ -73,7 +285,7 @@ func (a *c05) checkOwnership() {
 			}
 			for _, f := range []FieldID{a.fNext, a.fPrev} {
 				if X, ok := c05FieldAddr(st.Addr, f); ok && !isFreshBase(X) {
-					note(fn, f.String(), in, "write")
+					note(fn, "Entry."+f.Field, in, "write")
 				}
 			}
 		})
@@ -88,62 +300,111 @@ func (a *c05) checkOwnership() {
 		}
 		return keys[i].f < keys[j].f
 	})
+	// Obligation keys are role-based (one per protected datum), so that moving
+	// code between helpers does not change them.
+	agg := map[string]*struct {
+		n   int
+		bad []string
+		pos string
+		und string
+	}{}
+	var order []string
 	for _, k := range keys {
-		construct := a.name(k.fn) + " -> " + k.f
-		if len(bad[k]) == 0 {
-			ctx := "scheduler goroutine"
-			if !a.schedOnly[k.fn] {
-				ctx = "runningMu held and running==false at every access / call site"
-			}
-			r.OK("C05.S1-ownership", construct, pos[k], fmt.Sprintf("%d accesses, %s", cnt[k], ctx))
-			continue
-		}
-		// option-style constructor closures run before the Cron is published
-		if k.fn.Parent() != nil && k.fn.Signature.Results().Len() == 0 && k.fn.Signature.Params().Len() == 1 && namedKey(k.fn.Signature.Params().At(0).Type()) == a.fEntries.Type {
+		if k.fn.Parent() != nil && k.fn.Signature.Results().Len() == 0 && k.fn.Signature.Params().Len() == 1 && namedKey(k.fn.Signature.Params().At(0).Type()) == a.fEntries.Type && len(bad[k]) > 0 {
 			r.Note("C05.S1: %s touches %s without the lock; treated as a construction-time option (func(*Cron)), not armed", a.name(k.fn), k.f)
 			continue
 		}
-		r.Violation("C05.S1-ownership", construct, pos[k],
-			fmt.Sprintf("%d of %d accesses to %s can run concurrently with the scheduler goroutine's own reads and writes (neither the scheduler, nor runningMu held with running==false): the scheduler may keep running or re-add a removed entry, skip or double-start entries, and Entries() may return torn values", len(bad[k]), cnt[k], k.f),
-			bad[k]...)
+		c := "accesses to " + k.f
+		g := agg[c]
+		if g == nil {
+			g = &struct {
+				n   int
+				bad []string
+				pos string
+				und string
+			}{}
+			agg[c] = g
+			order = append(order, c)
+		}
+		g.n += cnt[k]
+		if g.pos == "" || len(bad[k]) > 0 {
+			g.pos = pos[k]
+		}
+		for _, b := range bad[k] {
+			g.bad = append(g.bad, a.name(k.fn)+": "+b)
+		}
+		if undec[k] != "" {
+			g.und = undec[k]
+		}
+	}
+	sort.Strings(order)
+	for _, c := range order {
+		g := agg[c]
+		if len(g.bad) == 0 {
+			r.OK("C05.S1-ownership", c, g.pos, fmt.Sprintf("%d accesses: each runs as the scheduler (running claimed by this goroutine) or with the mutex held after reading running==false", g.n))
+			continue
+		}
+		if g.und != "" {
+			r.Undecide("C05.S1-ownership: %s: %d accesses are not shown protected, but the running flag is used in a form the checker does not follow (%s)", c, len(g.bad), g.und)
+			continue
+		}
+		r.Violation("C05.S1-ownership", c, g.pos,
+			fmt.Sprintf("%d of %d accesses can run concurrently with the scheduler goroutine's own reads and writes (neither executed by the scheduler, nor with the mutex held after reading running==false): the scheduler may keep running or re-add a removed entry, skip or double-start entries, and Entries() may return torn values", len(g.bad), g.n),
+			g.bad...)
 	}
 
-	// S1b: the scheduler is started only from "!running -> running=true" sections
-	for _, s := range a.sites[a.sched] {
-		fn := s.Parent()
-		construct := a.name(fn) + " starts the scheduler"
-		var ok bool
-		why := "no store Cron.running = true dominates the start"
-		allInstrs(fn, func(in ssa.Instruction) {
-			st, isSt := in.(*ssa.Store)
-			if !isSt || ok {
-				return
+	// S1b: every way into the scheduler loop has claimed the running flag.
+	var roots []*ssa.Function
+	for _, fn := range a.funcs {
+		if isExportedFunc(fn) && a.reachLoop[fn] {
+			roots = append(roots, fn)
+		}
+	}
+	if len(roots) == 0 {
+		r.Undecide("C05.S1: no exported function reaches the scheduler loop %s", a.name(a.sched))
+	}
+	for _, root := range roots {
+		f := a.runFlow()
+		f.NoDefaultRoots = true
+		f.Run(map[*ssa.Function]int{root: 0})
+		construct := a.name(root) + " starts the scheduler"
+		gs := f.EntryGlobals(a.sched)
+		if len(gs) == 0 {
+			continue
+		}
+		ok := true
+		for _, g := range gs {
+			if !c05Claimed(g) {
+				ok = false
 			}
-			if _, isR := c05FieldAddr(st.Addr, a.fRunning); !isR {
-				return
+		}
+		if !ok {
+			imp := ""
+			for fn := range a.reachFrom(root, true) {
+				if w := a.runningUndecodable(fn); w != "" && imp == "" {
+					imp = a.name(fn) + ": " + w
+				}
+				if f.Imprecise[fn] && imp == "" {
+					imp = a.name(fn) + " branches on more than two running-related booleans"
+				}
 			}
-			k, isK := st.Val.(*ssa.Const)
-			if !isK || k.Value == nil || k.Value.String() != "true" {
-				return
+			if imp != "" {
+				r.Undecide("C05.S1-single-scheduler: %s: the loop is not shown to be entered only after claiming the running flag, but the flag is used in a form the checker does not follow (%s)", construct, imp)
+				continue
 			}
-			if !instrDominates(in, s) {
-				return
-			}
-			if good, w := a.underLockWithRunning(in, -1); good {
-				ok = true
-			} else {
-				why = "Cron.running = true at " + a.pos(in) + ": " + w
-			}
-		})
-		r.Check(ok, "C05.S1-single-scheduler", construct, a.pos(s),
-			"started after running was read false and set true inside one runningMu section",
-			"a second scheduler goroutine can be started while one is running (Start/Run twice, or concurrently): both consume the timer and the request channels and mutate entries, so activations are started twice or lost ("+why+")")
+		}
+		r.Check(ok, "C05.S1-single-scheduler", construct, p.Pos(root.Pos()),
+			"on every path from this entry point the scheduler loop is entered only after running was read false and set true inside one critical section",
+			"a second scheduler can be started while one is running (Start/Run twice, or concurrently): on some path from "+a.name(root)+" the loop "+a.name(a.sched)+" is entered without having read running==false and stored running=true in one critical section; both schedulers consume the timer and the request channels and mutate entries, so activations are started twice or lost")
 	}
 }
 
 // chanFieldOf: the Cron channel field a channel value was loaded from.
 func (a *c05) chanFieldOf(v ssa.Value) (FieldID, bool) {
 	for _, f := range []FieldID{a.fAdd, a.fRemove, a.fSnapshot, a.fStop} {
+		if f.Field == "" {
+			continue
+		}
 		if _, ok := c05LoadOf(v, f); ok {
 			return f, true
 		}
@@ -178,71 +439,267 @@ func (a *c05) sends(fn *ssa.Function) []c05Send {
 	return out
 }
 
-func (a *c05) checkRouting() {
-	r, p := a.r, a.p
-	storesEntries := a.mayStore(a.fEntries)
-	for _, fn := range p.Funcs {
-		ss := a.sends(fn)
-		if len(ss) == 0 {
-			continue
+func (a *c05) roleOf(f FieldID) string {
+	switch f {
+	case a.fAdd:
+		return "add"
+	case a.fRemove:
+		return "remove"
+	case a.fSnapshot:
+		return "snapshot"
+	case a.fStop:
+		return "stop"
+	}
+	return f.Field
+}
+
+// apiRoots: exported functions from which fn is reached through static calls.
+func (a *c05) apiRoots(fn *ssa.Function) []string {
+	var out []string
+	for _, r := range a.funcs {
+		if isExportedFunc(r) && a.reachFrom(r, false)[fn] {
+			out = append(out, a.name(r))
 		}
-		for _, s := range ss {
-			construct := a.name(fn) + " send on " + s.field.String()
-			if a.schedOnly[fn] {
-				r.Violation("C05.S2-routing", construct, a.pos(s.instr), "the scheduler goroutine sends on its own request channel "+s.field.String()+": nobody else receives from it, the scheduler blocks forever and no further activation is started")
+	}
+	sort.Strings(out)
+	if len(out) == 0 {
+		out = []string{a.name(fn)}
+	}
+	return out
+}
+
+func (a *c05) checkRouting() {
+	r := a.r
+	for _, fn := range a.funcs {
+		for _, s := range a.sends(fn) {
+			role := a.roleOf(s.field)
+			construct := "send on the " + role + " channel"
+			selfSend := false
+			ok, why, reached := a.ctxAll(s.instr, func(g int) bool {
+				if c05Claimed(g) {
+					selfSend = true
+					return false
+				}
+				return c05Rv(g) == c05rvT
+			}, a.describeRun(s.instr))
+			if !reached {
 				continue
 			}
-			ok, why := a.underLockWithRunning(s.instr, +1)
+			if selfSend {
+				r.Violation("C05.S2-routing", construct, a.pos(s.instr), "the scheduler goroutine sends on its own request channel ("+role+"): nobody else receives from it, the scheduler blocks forever and no further activation is started")
+				continue
+			}
+			if !ok {
+				if imp := a.impreciseAt(s.instr); imp != "" {
+					r.Undecide("C05.S2-routing: %s: not shown to be on the running branch under the mutex, but the running flag is used in a form the checker does not follow (%s)", construct, imp)
+					continue
+				}
+			}
 			r.Check(ok, "C05.S2-routing", construct, a.pos(s.instr),
-				"request sent with runningMu held on the running==true branch",
-				"a request is sent to the scheduler without knowing, under runningMu, that a scheduler is running ("+why+"): with no scheduler (not started, or stopped in between) the send blocks forever holding or racing the lock, so the call never returns and every later Start/Stop/Remove hangs")
+				"request sent with the mutex held on the running==true branch",
+				"a request is sent to the scheduler without knowing, under the mutex, that a scheduler is running ("+why+"): with no scheduler (not started, or stopped in between) the send blocks forever holding or racing the lock, so the call never returns and every later Start/Stop/Remove hangs")
 		}
-		// twin: the same function must apply the request itself on the stopped branch
-		for _, s := range ss {
-			switch s.field {
-			case a.fStop:
-				a.checkStopClears(fn, s)
-			case a.fRemove, a.fAdd:
-				construct := a.name(fn) + " applies or forwards " + strings.TrimPrefix(s.field.String(), "Cron.")
-				ff := &FlagFlow{Fn: fn, Must: true,
-					Transfer: func(in ssa.Instruction, st uint64) uint64 {
-						if in == s.instr {
-							return st | 1
-						}
-						switch x := in.(type) {
-						case *ssa.Call:
-							if cal := staticCallee(x); cal != nil && storesEntries[cal] {
-								for _, arg := range x.Call.Args {
-									if arg == s.val {
-										return st | 1
-									}
-								}
+	}
+	a.checkTwins()
+	a.checkStopClears()
+}
+
+// checkTwins: every return of an exported method that can forward a removal /
+// an addition to the scheduler has either forwarded it or applied it to
+// Cron.entries itself.
+func (a *c05) checkTwins() {
+	r := a.r
+	for _, field := range []FieldID{a.fRemove, a.fAdd} {
+		field := field
+		sendsOn := map[*ssa.Function]bool{}
+		for _, fn := range a.funcs {
+			for _, s := range a.sends(fn) {
+				if s.field == field {
+					sendsOn[fn] = true
+				}
+			}
+		}
+		// the value being forwarded, per function that sends it
+		sentVal := map[*ssa.Function]ssa.Value{}
+		for _, fn := range a.funcs {
+			for _, s := range a.sends(fn) {
+				if s.field == field {
+					sentVal[fn] = s.val
+				}
+			}
+		}
+		storesEntries := a.mayStore(a.fEntries)
+		f := &c05Flow{a: a, G: 2}
+		f.Step = func(in ssa.Instruction, g int) (int, bool) {
+			switch x := in.(type) {
+			case *ssa.Call:
+				// an applier called next to the send with a value of the forwarded
+				// type that is not the forwarded value does not apply THIS request
+				h := staticCallee(x)
+				v := sentVal[in.Parent()]
+				if h != nil && v != nil && storesEntries[h] {
+					takes, passes := false, false
+					for k, arg := range x.Call.Args {
+						if k < len(h.Params) && types.Identical(h.Params[k].Type(), v.Type()) {
+							takes = true
+							if arg == v {
+								passes = true
 							}
-						case *ssa.Store:
-							if _, ok := c05FieldAddr(x.Addr, a.fEntries); ok && s.field == a.fAdd && a.appendContains(x.Val, s.val) {
-								return st | 1
+						}
+					}
+					if takes && !passes {
+						return g, true
+					}
+				}
+			case *ssa.Send:
+				if fl, ok := a.chanFieldOf(x.Chan); ok && fl == field {
+					return 1, false
+				}
+			case *ssa.Select:
+				for _, st := range x.States {
+					if st.Dir == types.SendOnly {
+						if fl, ok := a.chanFieldOf(st.Chan); ok && fl == field {
+							return 1, false
+						}
+					}
+				}
+			case *ssa.Store:
+				if _, ok := c05FieldAddr(x.Addr, a.fEntries); ok {
+					return 1, false
+				}
+			}
+			return g, false
+		}
+		f.Run(nil)
+		what := "removal"
+		if field == a.fAdd {
+			what = "new entry"
+		}
+		for _, root := range a.funcs {
+			if !isExportedFunc(root) {
+				continue
+			}
+			reaches := false
+			for h := range a.reachFrom(root, false) {
+				if sendsOn[h] {
+					reaches = true
+				}
+			}
+			if !reaches {
+				continue
+			}
+			// wrappers that only delegate to another exported forwarder are covered by it
+			delegates := false
+			allInstrs(root, func(in ssa.Instruction) {
+				if ci, ok := in.(*ssa.Call); ok {
+					if h := staticCallee(ci); h != nil && h != root && isExportedFunc(h) {
+						for x := range a.reachFrom(h, false) {
+							if sendsOn[x] {
+								delegates = true
 							}
 						}
-						return st
-					}}
-				ff.Run()
-				good, n, where := true, 0, ""
-				ff.AtReturns(func(ret *ssa.Return, st uint64) {
-					n++
-					if st&1 == 0 {
+					}
+				}
+			})
+			if delegates && !sendsOn[root] {
+				continue
+			}
+			construct := a.name(root) + " applies or forwards the " + what
+			good, n, where := true, 0, ""
+			allInstrs(root, func(in ssa.Instruction) {
+				ret, ok := in.(*ssa.Return)
+				if !ok {
+					return
+				}
+				gs := f.Globals(f.At(ret))
+				if len(gs) == 0 {
+					return
+				}
+				n++
+				for _, g := range gs {
+					if g == 0 {
 						good = false
 						where = a.pos(ret)
 					}
-				})
-				what := "removal"
-				if s.field == a.fAdd {
-					what = "new entry"
 				}
-				r.Check(good && n > 0, "C05.S2-twin", construct, a.pos(s.instr),
-					"every return has either handed the "+what+" to the scheduler or applied it to Cron.entries itself",
-					"on some path (return at "+where+") the "+what+" is neither sent to the scheduler nor applied to Cron.entries: before Start / after Stop the call is silently dropped (a removed entry is started after the next Start; an added one never runs)")
+			})
+			r.Check(good && n > 0, "C05.S2-twin", construct, a.p.Pos(root.Pos()),
+				"every return has either handed the "+what+" to the scheduler or applied it to Cron.entries itself",
+				"on some path (return at "+where+") the "+what+" is neither sent to the scheduler nor applied to Cron.entries: before Start / after Stop the call is silently dropped (a removed entry is started after the next Start; an added one never runs)")
+		}
+	}
+}
+
+// checkStopClears: every return of an exported method after the stop request has stored running=false.
+func (a *c05) checkStopClears() {
+	const sent, cleared = 1, 2
+	f := &c05Flow{a: a, G: 4}
+	isStopSend := func(in ssa.Instruction) bool {
+		switch x := in.(type) {
+		case *ssa.Send:
+			fl, ok := a.chanFieldOf(x.Chan)
+			return ok && fl == a.fStop
+		case *ssa.Select:
+			for _, st := range x.States {
+				if st.Dir == types.SendOnly {
+					if fl, ok := a.chanFieldOf(st.Chan); ok && fl == a.fStop {
+						return true
+					}
+				}
 			}
 		}
+		return false
+	}
+	f.Step = func(in ssa.Instruction, g int) (int, bool) {
+		if isStopSend(in) {
+			return g | sent, false
+		}
+		if x, ok := in.(*ssa.Store); ok {
+			if _, isR := c05FieldAddr(x.Addr, a.fRunning); isR {
+				if k, isK := x.Val.(*ssa.Const); isK && k.Value != nil && k.Value.String() == "false" && a.e.At(in)[a.lockID] == ModeW {
+					return g | cleared, false
+				}
+				return g &^ cleared, false
+			}
+		}
+		return g, false
+	}
+	f.Run(nil)
+	for _, root := range a.funcs {
+		if !isExportedFunc(root) {
+			continue
+		}
+		reaches := false
+		for h := range a.reachFrom(root, false) {
+			allInstrs(h, func(in ssa.Instruction) {
+				if isStopSend(in) {
+					reaches = true
+				}
+			})
+		}
+		if !reaches {
+			continue
+		}
+		good, n := true, 0
+		allInstrs(root, func(in ssa.Instruction) {
+			ret, ok := in.(*ssa.Return)
+			if !ok {
+				return
+			}
+			gs := f.Globals(f.At(ret))
+			if len(gs) == 0 {
+				return
+			}
+			n++
+			for _, g := range gs {
+				if g&sent != 0 && g&cleared == 0 {
+					good = false
+				}
+			}
+		})
+		a.r.Check(good && n > 0, "C05.S2-stop-clears-running", a.name(root)+" clears the running flag after the stop request", a.p.Pos(root.Pos()),
+			"every return after the stop request has stored running=false under the mutex",
+			"Stop can return with the scheduler gone but Cron.running still true: later Schedule/Remove/Entries/Stop send to a scheduler that no longer exists and hang, and Start is a no-op, so after a restart no activation is ever started")
 	}
 }
 
@@ -270,35 +727,4 @@ func (a *c05) appendContains(v, elem ssa.Value) bool {
 		}
 	}
 	return false
-}
-
-// checkStopClears: every return reachable after the send on Cron.stop has stored running=false.
-func (a *c05) checkStopClears(fn *ssa.Function, s c05Send) {
-	const sent, cleared = 1, 2
-	ff := &FlagFlow{Fn: fn, Must: false, Entry: 1 << 0,
-		Transfer: func(in ssa.Instruction, st uint64) uint64 {
-			if in == s.instr {
-				return mapStates(st, func(x int) int { return x | sent })
-			}
-			if x, ok := in.(*ssa.Store); ok {
-				if _, isR := c05FieldAddr(x.Addr, a.fRunning); isR {
-					if k, isK := x.Val.(*ssa.Const); isK && k.Value != nil && k.Value.String() == "false" && a.e.At(in)[a.lockID] == ModeW {
-						return mapStates(st, func(x int) int { return x | cleared })
-					}
-					return mapStates(st, func(x int) int { return x &^ cleared })
-				}
-			}
-			return st
-		}}
-	ff.Run()
-	good, n := true, 0
-	ff.AtReturns(func(ret *ssa.Return, st uint64) {
-		n++
-		if st&(1<<sent) != 0 { // state {sent} without cleared
-			good = false
-		}
-	})
-	a.r.Check(good && n > 0, "C05.S2-stop-clears-running", a.name(fn)+" clears Cron.running after the stop request", a.pos(s.instr),
-		"every return after the stop request has stored running=false under runningMu",
-		"Stop can return with the scheduler gone but Cron.running still true: later Schedule/Remove/Entries/Stop send to a scheduler that no longer exists and hang, and Start is a no-op, so after a restart no activation is ever started")
 }
